@@ -108,7 +108,8 @@ Lex(s) == LexFrom(s, 1, <<>>)
 \* and wherever gluing two lexemes would change the token boundaries.
 WordLike(t) == t.k \in {"id", "int", "var"}
 NeedsGap(a, b) ==
-  \/ (WordLike(a) \/ a.k = "root") /\ (b.k \in {"id", "int"})  \* ab, a1, $a
+  \/ a.k \in {"id", "var"} /\ b.k \in {"id", "int"} /\ IsAlnum(Head(b.cp))   \* ab, a1, $a1
+  \/ a.k = "root" /\ b.k = "id"                                              \* $ a vs $a
   \/ a.k = "minus" /\ b.k = "int" /\ a.cp = <<45>>            \* - 1 vs -1
   \/ a.k = "amp"  /\ b.k \in {"amp", "and"}
   \/ a.k = "pipe" /\ b.k \in {"pipe", "or"}
